@@ -14,7 +14,7 @@ from cddvc import e1
 from cddvc.report import Run, compare_baseline
 from checks import common, domain, roundtrip as R, rt_matrix as M
 
-TYPES = ["int", "float", "str", "bool", "Optional[int]", "Optional[str]", "Literal['x', 'y']", "List[str]", "Union[int, str]", "dict"]
+TYPES = ["int", "float", "str", "bool", "Optional[int]", "Optional[str]", "Literal['x', 'y']", "List[str]", "Union[int, str]", "dict", domain.LONG_LITERAL, domain.LONG_UNION]
 SQL_TYPES = ["int", "float", "str", "bool", "Optional[int]", "Optional[str]", "Literal['x', 'y']"]
 JSON_TYPES = ["int", "float", "str", "bool", "dict", "Optional[int]", "Optional[str]", "Literal['x', 'y']"]
 DOCS = ["the {name}", "number of things, with a comma", "whether to do it", "list of names", "The {name} of it. Defaults to 3", "ends in an ellipsis etc...", ""]
@@ -74,6 +74,10 @@ def contract(cell, ir):
     src = {}
     if field in ("typ", "doc", "default"):
         src = ir["params"].get(what.split(".")[0], {})
+    if not src and any(len(p.get("typ") or "") > 85 for p in ir["params"].values()):
+        # failures not tied to one parameter (names, returns, doc) on an interface with a type the word-wrapper breaks
+        return [(("fixpoint", fmt if fmt != "sqlalchemy" else variant, style, "default_doc=%s" % edd, "doc:" + doc_class, field, "wrapped-type", "-"),
+                 "round %d differs from round %d: %s" % (rnd, rnd - 1, what), None)]
     return [(("fixpoint", fmt if fmt != "sqlalchemy" else variant, style, "default_doc=%s" % edd, "doc:" + doc_class, field, M.typ_class(src.get("typ")) if src else "-", M.default_class(src) if src else "-"),
              "round %d differs from round %d: %s" % (rnd, rnd - 1, what), None)]
 
